@@ -24,6 +24,9 @@ inline void global_init()
 	FIX8::GlobalLogger::set_levels(FIX8::Logger::Levels(FIX8::Logger::None));
 	FIX8::GlobalLogger::stop();
 	::unlink(path.c_str());
+	// FastFlow's per-thread allocator registers a thread-exit destructor; make sure its key exists before the kernel's
+	(void)::ff::FFAllocator::instance();
+	sim::init_thread_exit_key();
 }
 
 inline std::string hex(const std::string& s, size_t max = 48)
